@@ -19,9 +19,32 @@ func usage() {
 	os.Exit(2)
 }
 
+// Flight recorder: the call about to be executed is written (in place, fixed size) to <out>.inflight, so that a producer
+// killed by a fatal runtime error (memory corruption inside the library cannot be recovered like a panic) still tells the
+// runner which trace and call it died in.
+var inflightF *os.File
+
+func markInflight(tr, i int, op string) {
+	if inflightF == nil {
+		return
+	}
+	rec := fmt.Sprintf("{\"tr\":%d,\"i\":%d,\"op\":%q}", tr, i, op)
+	buf := make([]byte, 160)
+	for k := range buf {
+		buf[k] = ' '
+	}
+	copy(buf, rec)
+	inflightF.WriteAt(buf, 0)
+}
+
 func main() {
 	if len(os.Args) < 2 {
 		usage()
+	}
+	for k := 2; k+1 < len(os.Args); k++ {
+		if os.Args[k] == "-out" && os.Args[k+1] != "" {
+			inflightF, _ = os.Create(os.Args[k+1] + ".inflight")
+		}
 	}
 	switch os.Args[1] {
 	case "drive":
@@ -92,6 +115,10 @@ func cmdDrive(args []string) {
 		}
 		if *prof == "kernel" {
 			driveKernel(r, w, id, &cv)
+			continue
+		}
+		if *prof == "aggkernel" {
+			driveAggKernel(r, w, id, &cv)
 			continue
 		}
 		if *prof == "aggsparse" {
@@ -384,6 +411,52 @@ func driveBurst(r *rand.Rand, w *bufio.Writer, id int, maxAtoms int, cv *coverOu
 	e := newExec(u, w, id, r.Int63())
 	e.begin()
 	ga, _ := u.project(gens[0])
+	if cap != 260 && r.Intn(3) == 0 {
+		// DEPLETION: a run chunk that is efficient only thanks to its long runs loses exactly those (no run is split):
+		// what remains are isolated values, for which the run encoding is the most expensive one
+		gall, _ := u.project(gens[0].union(gens[1]))
+		e.run(Call{Op: "Build", Dst: 1, As: gall, Rcp: pick(r, []string{"Ro", "Ro", "Rok", "Mo", "Ao"})})
+		cells := map[int]bool{}
+		for _, a := range ga {
+			cells[u.atom(a).Cell] = true
+		}
+		switch r.Intn(6) {
+		case 0:
+			for c := 1; c <= u.ncell(); c++ {
+				if cells[c] {
+					e.run(Call{Op: "RemoveRange", X: 1, C0: c, C1: c + 1})
+				}
+			}
+		case 1:
+			e.run(Call{Op: "Build", Dst: 2, As: ga, Rcp: pick(r, []string{"R", "Ro", "M"})})
+			e.run(Call{Op: "AndNot", X: 1, Y: 2})
+		case 2:
+			e.run(Call{Op: "Build", Dst: 2, As: ga, Rcp: pick(r, []string{"R", "Ro", "M"})})
+			e.run(Call{Op: "Xor", X: 1, Y: 2})
+		case 3:
+			gi, _ := u.project(gens[1])
+			e.run(Call{Op: "Build", Dst: 2, As: gi, Rcp: pick(r, []string{"M", "A", "Ro"})})
+			e.run(Call{Op: "And", X: 1, Y: 2})
+		case 4:
+			e.run(Call{Op: "Build", Dst: 2, As: ga, Rcp: pick(r, []string{"R", "Ro", "M"})})
+			e.run(Call{Op: "AndNotS", Dst: 1, X: 1, Y: 2})
+		default:
+			for _, a := range ga {
+				e.run(Call{Op: "Build", Dst: 2, As: []int{a}, Rcp: "R"})
+				e.run(Call{Op: "AndNot", X: 1, Y: 2})
+			}
+		}
+		e.run(Call{Op: "Card", X: 1})
+		e.run(Call{Op: "Ser", X: 1, V: r.Intn(4)})
+		e.run(Call{Op: "RunOptimize", X: 1})
+		e.run(Call{Op: "Card", X: 1})
+		cv.Traces++
+		cv.Events += e.events
+		for k, v := range e.cover {
+			cv.Ops[k] += v
+		}
+		return
+	}
 	e.run(Call{Op: "Build", Dst: 1, As: ga, Rcp: pick(r, []string{"Ro", "Ro", "R", "Rok", "Roz"})})
 	mode := r.Intn(6)
 	if cap == 260 && r.Intn(2) == 0 {
@@ -486,6 +559,71 @@ func driveAggSparse(r *rand.Rand, w *bufio.Writer, id int, bits int, maxAtoms in
 		e.run(Call{Op: "Clone", Dst: 6, X: 1})
 		e.run(Call{Op: "AndAny", X: 6, Xs: []int{2, 3}})
 	}
+	cv.Traces++
+	cv.Events += e.events
+	for k, v := range e.cover {
+		cv.Ops[k] += v
+	}
+}
+
+// driveAggKernel: aggregates over three bitmaps whose contents in ONE chunk key (plus sometimes a neighbour key) are
+// storage-edge shapes (full chunk, runs at word / chunk edges, threshold arrays, dense bitmaps): every aggregate in every
+// order of the list, so that each container kind meets each other kind at each list position (the first two inputs and
+// the third-and-later ones take different code paths); the sharing probe then writes to every participant.
+func driveAggKernel(r *rand.Rand, w *bufio.Writer, id int, cv *coverOut) {
+	var u *Universe
+	var gs [3][]int
+	for {
+		key := pick(r, []uint64{0, 1, 9, 0x7FFF, 0xFFFE, 0xFFFF})
+		var shapes [3]iset
+		for i := range shapes {
+			shapes[i] = edgeShape(r, key)
+			if r.Intn(4) == 0 {
+				shapes[i] = chunkShape(r, key)
+			}
+			if r.Intn(4) == 0 && key < 0xFFFF {
+				shapes[i] = shapes[i].union(edgeShape(r, key+1))
+			}
+		}
+		if r.Intn(3) == 0 {
+			shapes[r.Intn(3)] = iset{span{key << 16, key<<16 + 65535}} // a full chunk somewhere in the list
+		}
+		var err error
+		u, err = vennUniverse(32, []uint64{key << 16, (key + 1) << 16}, shapes[:])
+		if err != nil {
+			panic(err)
+		}
+		if len(u.Atoms) > 60 {
+			continue
+		}
+		for i := range shapes {
+			gs[i], _ = u.project(shapes[i])
+		}
+		break
+	}
+	u.computeShifts([]int64{0})
+	u.Name = "aggkernel"
+	e := newExec(u, w, id, r.Int63())
+	e.begin()
+	rc := []string{"R", "Ro", "Ro", "M", "Mo", "Rc", "Rok", "A"}
+	for i := range gs {
+		e.run(Call{Op: "Build", Dst: i + 1, As: gs[i], Rcp: pick(r, rc)})
+	}
+	perms := [][]int{{1, 2, 3}, {1, 3, 2}, {2, 1, 3}, {2, 3, 1}, {3, 1, 2}, {3, 2, 1}}
+	ops := []string{"FastOr", "HeapOr", "ParOr", "ParHeapOr", "FastAnd", "ParAnd", "HeapXor"}
+	r.Shuffle(len(ops), func(i, j int) { ops[i], ops[j] = ops[j], ops[i] })
+	for _, op := range ops {
+		r.Shuffle(len(perms), func(i, j int) { perms[i], perms[j] = perms[j], perms[i] })
+		for _, p := range perms[:3] {
+			c := Call{Op: op, Dst: 4 + r.Intn(2), Xs: append([]int(nil), p...)}
+			if strings.HasPrefix(op, "Par") {
+				c.W = 1 + r.Intn(3)
+			}
+			e.run(c)
+		}
+	}
+	e.run(Call{Op: "Clone", Dst: 6, X: 1})
+	e.run(Call{Op: "AndAny", X: 6, Xs: []int{2, 3}})
 	cv.Traces++
 	cv.Events += e.events
 	for k, v := range e.cover {
